@@ -41,6 +41,10 @@ def ordinal (m d : Nat) : Int := (julianOrdinalDay m).getD 0 + (d : Int)
 /-- the binary value of a date: hours since 1 January −5000 in the 365-day calendar -/
 def binOf (y : Int) (m d h0 : Nat) : Int := ((y + 5000) * 365 + ordinal m d) * 24 + (h0 : Int)
 
+/-- the day number of a valid date: `365·y ± ordinal`, mirrored before year 0 -/
+def daysOf (y : Int) (m d : Nat) : Int :=
+  if y * 365 < 0 then y * 365 - ordinal m d else y * 365 + ordinal m d
+
 /-! ### text grammar of the component parser -/
 
 /-- `t` is one or two ASCII digits with decimal value `v` -/
